@@ -137,6 +137,24 @@ MovesWinS(h, kn) ==
         \o (IF t.part # <<>> THEN <<MSummarize(i, <<KV("s", Agg("sum", Col(x)))>>)>> ELSE <<>>)
 
 ---------------------------------------------------------------------------
+(* a pending grouping carried across a subquery boundary: group_by, a verb that forces a subquery, summarize / window *)
+MovesGS(h, kn) ==
+    LET i  == Len(h)
+        t  == h[i]
+        has(n) == n \in VisNames(t)
+        c(n) == Col(ByName(t)[n])
+    IN  IF ~(has("a") /\ has("b")) THEN <<>> ELSE
+        (IF has("g") /\ t.part = <<>> /\ ~Summarized(t) THEN <<MGroupBy(i, <<c("g")>>, FALSE)>> ELSE <<>>)
+        \o (IF ~has("w") THEN <<MMutate(i, <<KV("w", Win("row_number", <<>>, <<Ord(c("b"), FALSE, "first"), Ord(c("a"), TRUE, "last")>>))>>),
+                                 MMutate(i, <<KV("w", Agg("sum", c("b")))>>)>> ELSE <<>>)
+        \o (IF has("w") THEN <<MFilter(i, <<Fn2("le", CN("w"), LitI(2))>>)>> ELSE <<>>)
+        \o <<MFilter(i, <<Fn2("gt", c("b"), LitI(0))>>)>>
+        \o (IF t.part = <<>> THEN <<MSlice(i, 3, 0)>> ELSE <<>>)
+        \o (IF ~Summarized(t) THEN <<MSummarize(i, <<KV("s", Agg("sum", c("b"))), KV("n", Len0)>>)>> ELSE <<>>)
+        \o <<MArrange(i, <<Ord(c("b"), FALSE, "first"), Ord(c("a"), TRUE, "last")>>)>>
+        \o (IF t.part # <<>> THEN <<MUngroup(i)>> ELSE <<>>)
+
+---------------------------------------------------------------------------
 (* tall tables: a short alphabet that is cheap to evaluate on > 100 rows *)
 MovesTall(h, kn) ==
     LET i == Len(h)
